@@ -94,6 +94,7 @@ type wireRun struct {
 	sent        map[uint32]bool // transaction ids of datagrams sent so far
 	altPort     uint16          // the variant server's own port (its UDP replies come from there)
 	varServerID []byte          // the DHCPv4 server identifier the running variant server is configured with
+	extraArgs   []string        // further command-line arguments for the next variant server
 }
 
 // llOf returns the IPv6 link-local address of an interface of this namespace.
